@@ -155,11 +155,11 @@ macro_rules! rt_harness {
     };
 }
 
-//@ harness name=bf_roundtrip_ed_be prop=C01 variants=blowfish tier=quick bits=33408 stub=1 est=83 desc="W: Blowfish<BE>: decrypt_block(encrypt_block(b)) == b on an arbitrary state (superset of every state reachable by keying with 4..=56 bytes or by bcrypt steps), all blocks; round_function uninterpreted (a Feistel network inverts for any round function)"
+//@ harness name=bf_roundtrip_ed_be prop=C01 variants=blowfish tier=quick bits=33408 stub=1 est=75 need=5 desc="W: Blowfish<BE>: decrypt_block(encrypt_block(b)) == b on an arbitrary state (superset of every state reachable by keying with 4..=56 bytes or by bcrypt steps), all blocks; round_function uninterpreted (a Feistel network inverts for any round function)"
 rt_harness!(bf_roundtrip_ed_be, BE, encrypt_block, decrypt_block);
-//@ harness name=bf_roundtrip_de_be prop=C01 variants=blowfish tier=quick bits=33408 stub=1 est=88 desc="W: Blowfish<BE>: encrypt_block(decrypt_block(b)) == b on an arbitrary state, all blocks; round_function uninterpreted"
+//@ harness name=bf_roundtrip_de_be prop=C01 variants=blowfish tier=quick bits=33408 stub=1 est=95 need=5 desc="W: Blowfish<BE>: encrypt_block(decrypt_block(b)) == b on an arbitrary state, all blocks; round_function uninterpreted"
 rt_harness!(bf_roundtrip_de_be, BE, decrypt_block, encrypt_block);
-//@ harness name=bf_roundtrip_ed_le prop=C01 variants=blowfish tier=quick bits=33408 stub=1 est=81 desc="W: BlowfishLE: decrypt_block(encrypt_block(b)) == b on an arbitrary state, all blocks; round_function uninterpreted"
+//@ harness name=bf_roundtrip_ed_le prop=C01 variants=blowfish tier=quick bits=33408 stub=1 est=65 need=5 desc="W: BlowfishLE: decrypt_block(encrypt_block(b)) == b on an arbitrary state, all blocks; round_function uninterpreted"
 rt_harness!(bf_roundtrip_ed_le, LE, encrypt_block, decrypt_block);
-//@ harness name=bf_roundtrip_de_le prop=C01 variants=blowfish tier=quick bits=33408 stub=1 est=84 desc="W: BlowfishLE: encrypt_block(decrypt_block(b)) == b on an arbitrary state, all blocks; round_function uninterpreted"
+//@ harness name=bf_roundtrip_de_le prop=C01 variants=blowfish tier=quick bits=33408 stub=1 est=70 need=5 desc="W: BlowfishLE: encrypt_block(decrypt_block(b)) == b on an arbitrary state, all blocks; round_function uninterpreted"
 rt_harness!(bf_roundtrip_de_le, LE, decrypt_block, encrypt_block);
